@@ -45,11 +45,14 @@ SNIPPETS = [
     "np.pad(np.array([1.0, 2.0]), 2, mode='constant')", "np.pad(np.array([1, 2]), int(np.ceil(3 / 2)), mode='constant')",
     "np.append(np.array([1, 2]), 5)", "np.append(5, np.array([1, 2]))", "np.append(np.array([]), [1.5, 2.5])", "np.append(np.array([1, 2])[0], np.array([7, 8]))",
     "np.interp(np.arange(6), np.array([1, 3, 4]), np.array([0.0, 2.0, -1.0]))", "np.interp(np.arange(3), np.array([1]), np.array([7.0]))",
+    "np.add.reduceat(np.array([1.0, 2.0, 4.0, 8.0, 16.0]), np.array([0, 2, 3]))", "np.add.reduceat(np.arange(6), np.array([1, 4])) / np.diff(np.array([1, 4, 6]))",
     "np.ceil(3 / 2)", "int(np.ceil(0 / 2))", "np.array([2, 9, 4])[0::2]", "np.array([5, 7, 9])[np.array([True, False, True])] - 2",
     # --- pandas
     "pd.DataFrame({'a': [1, 2, 3], 'b': [1.5, 2.5, 3.5]}).to_dict('records')", "len(pd.DataFrame())", "list(pd.DataFrame().columns)",
     "pd.DataFrame.from_dict({'p': np.array([3, 1]), 'q': [0.5, 1.5]})['p'].values", "_p1()", "_p2()", "_p3()", "_p4()", "_p5()", "_p6()",
     "_p7()", "_p8()", "_p9()", "_p10()", "_p11()", "_p12()", "_p13()", "_p14()", "_p15()", "_p16()",
+    "(-pd.DataFrame({'a': [1.0, -2.0], 'b': [3.0, 0.5]})).max(axis=1).tolist()", "(-pd.DataFrame({'a': [1.0, -2.0], 'b': [3.0, 0.5]})[['a', 'b']]).min(axis=1).tolist()",
+    "(pd.DataFrame({'a': [1.0, 2.0], 'b': [3.0, 5.0]}) * 2).to_dict('records')", "pd.DataFrame({'a': [1.0, 4.0], 'b': [3.0, 0.5]}).max().tolist()",
     "pd.Series([3.0, 1.0, 3.0, np.nan]).rank().tolist()", "pd.Series([2, 2, 2]).rank().tolist()", "pd.Series([5, 1, 5, 1, 3]).rank().tolist()",
     "(pd.Series([1.0, np.nan, 3.0]) > 2).tolist()", "((pd.Series([1, 5]) > 2) & (pd.Series([1, 5]) < 9)).to_numpy().flags.writeable",
     "(1 - pd.Series([0.25, 1.0])).tolist()", "(pd.Series([4, 9]) / pd.Series([2, 0])).tolist()", "(pd.Series([0, 1]) / pd.Series([0, 2])).tolist()",
